@@ -10,13 +10,73 @@ ASSUMPTIONS = [
     'process-level theorems assume operands resolve (no evaluator fuel exhaustion) and that registers are r0..r31 (grammar guarantee, tied by the reg8 Gen table)',
 ]
 
+def program_cases(tier, seed, pool):
+    """random programs of legal instructions: the image must be the concatenation of the ISA
+    words of every instruction at its real address (relative ones get numeric targets)"""
+    import random
+    rng = random.Random(seed)
+    progs = []
+    n = 400 if tier == 'quick' else 4000
+    nonrel = [c for c in pool if c.core == 0 and c.mn not in ('rjmp', 'rcall', 'brbs', 'brbc') and not c.mn.startswith('br') or c.mn == 'break']
+    for _ in range(n):
+        lines, reqs, addr = [], [], 0
+        for _ in range(rng.randrange(2, 40)):
+            k = rng.random()
+            if k < .25:
+                mn = rng.choice(['rjmp', 'rcall'] + ['br' + b for b in E.BRANCHES] + ['brbs', 'brbc'])
+                lim = 2048 if mn in ('rjmp', 'rcall') else 64
+                d = rng.choice([-lim, lim - 1, rng.randrange(-lim, lim), rng.randrange(-8, 8)])
+                t = addr + 1 + d
+                pre = ['v%d' % 3] if mn in ('brbs', 'brbc') else []
+                lines.append('%s %s%s' % (mn, '3, ' if pre else '', E.num(t)))
+                reqs.append((mn, addr, pre + ['v%d' % t], 1))
+                addr += 1
+            else:
+                c = rng.choice(nonrel)
+                lines.append(c.src)
+                w = 2 if c.mn in ('jmp', 'call', 'lds', 'sts') else 1
+                reqs.append((c.mn, addr, c.toks, w))
+                addr += w
+        progs.append(('\n'.join(lines), reqs))
+    return progs
+
+def run_programs(progs, model_ok):
+    import vlib
+    trip = [(str(i), 'B', vlib.hx(p[0])) for i, p in enumerate(progs)]
+    impl = vlib.run_impl(trip)
+    model = vlib.run_model(trip, vlib.cwd_prelude()) if model_ok else {}
+    lines = []
+    for i, (src, reqs) in enumerate(progs):
+        for j, (mn, addr, toks, w) in enumerate(reqs):
+            lines.append('%d.%d ENC 0 %s %d %s' % (i, j, mn, addr, ' '.join(toks)))
+    spec, _, _ = vlib.run_lines(E.SPEC, lines, mode=None)
+    dis, vio = [], []
+    for i, (src, reqs) in enumerate(progs):
+        a = impl.get(str(i), 'MISSING')
+        if model_ok and a != model.get(str(i), 'MISSING'):
+            dis.append({'source': src, 'impl': a[:200], 'model': model.get(str(i), 'MISSING')[:200]})
+        exp = ''
+        for j in range(len(reqs)):
+            s = spec.get('%d.%d' % (i, j), 'NOSPEC')
+            exp += E.expected_canon_code(s) if s.startswith('W') else '????'
+        if not a.startswith('OK') or E.code_of(a) != exp:
+            vio.append({'what': 'image of a program of valid instructions is not the concatenation of their ISA encodings at their addresses',
+                        'source': src, 'impl': a[:300], 'expected_code': exp, 'key': 'program'})
+    return dis, vio
+
 def run(tier, seed, model_ok):
     cases = list(E.legal_cases(tier))
+    # the same instructions written through .def aliases / .equ symbols / expressions (thinned)
+    sym = [E.mk_sym(c.mn, *zip(c.src.split('\n')[-1].split(' ', 1)[1].split(', ') if ' ' in c.src.split('\n')[-1] else [], c.toks), core=c.core, dev=c.dev) for c in cases[::7]]
+    cases += sym
     dis, vio = E.run_enc(cases, model_ok, 'C01')
+    progs = program_cases(tier, seed, cases[:108000:13])
+    d2, v2 = run_programs(progs, model_ok)
+    dis += d2; vio += v2
     dist = Counter(c.mn for c in cases)
     return {
-        'evaluations': len(cases), 'distinct_nontrivial': len({c.src for c in cases}),
-        'rule': 'every legal operand tuple of every one-word instruction form (exhaustive), lds/sts over a stride of the 16-bit address space for 3 registers plus boundary addresses for all registers, jmp/call over all 64 high fields x boundary low words, reduced-core lds/sts exhaustive; each a one-line program through build_str; distinct = distinct source texts (all are non-trivial: each denotes a different instruction/operand tuple)',
+        'evaluations': len(cases) + len(progs), 'distinct_nontrivial': len({c.src for c in cases}),
+        'rule': 'every legal operand tuple of every one-word instruction form (exhaustive), lds/sts over a stride of the 16-bit address space for 3 registers plus boundary addresses for all registers, jmp/call over all 64 high fields x boundary low words, reduced-core lds/sts exhaustive; each a one-line program through build_str; the same written through .def aliases/.equ symbols/expressions (every 7th); plus seeded random programs of 2..40 legal instructions (relative ones with numeric targets) whose image must be the concatenation of the ISA words at the real addresses; distinct = distinct source texts (all are non-trivial: each denotes a different instruction/operand tuple)',
         'samples': [cases[0].src, cases[len(cases) // 2].src, cases[-1].src],
         'exhaustive': True,
         'distribution': {'cases_per_mnemonic_top': dist.most_common(12), 'mnemonics': len(dist)},
